@@ -122,3 +122,44 @@ fn read_io_routing() {
     kani::cover!(n == 1 && m_x);
     kani::cover!(n == 0);
 }
+
+/// C07 (read side, floating bus): a read from a port no device claims, performed while the ULA
+/// fetches picture data, returns the display / attribute byte being fetched - for every
+/// unclaimed port (with an uncontended high byte, so the read happens 3 T after the cycle
+/// starts), every device configuration, at the bitmap and the attribute phase of a fetch cycle.
+/// (The fetch-window function for all clocks is the Verus contract of floating_bus_value.)
+#[kani::proof]
+#[kani::unwind(17)]
+#[kani::stub(libm::sqrt, sqrt_stub)]
+#[kani::stub(crate::zx::sound::mixer::ZXMixer::process, mixer_process_stub)]
+#[kani::stub(crate::zx::video::screen::ZXScreen::process_clocks, screen_process_clocks_stub)]
+fn read_io_floating() {
+    let machine = any_machine();
+    let kemp: bool = kani::any();
+    let mouse: bool = kani::any();
+    let mut c = ZXController::<VHost>::new(&settings(machine, kemp, mouse, false), VContext);
+    let has_ext: bool = kani::any();
+    if has_ext {
+        c.io_extender = Some(VExt { claims: false, answer: kani::any(), n_read: 0, n_write: 0, last_port: 0, last_data: 0 });
+    }
+    let (b1, b2): (u8, u8) = (kani::any(), kani::any());
+    c.write_internal(0x4000, b1); // first display byte
+    c.write_internal(0x5800, b2); // first attribute byte
+    // the port cycle reads the bus 3 T after it starts: land on T = first_pixel + 2 (bitmap fetch
+    // of row 0, column 0) or + 3 (attribute fetch)
+    let first_pixel = machine.specs().clocks_first_pixel;
+    let attr_phase: bool = kani::any();
+    c.frame_clocks = first_pixel - 1 + attr_phase as usize;
+    let port: u16 = kani::any();
+    let ula = port & 1 == 0;
+    let ay = port & 0xC002 == 0xC000;
+    let kj = kemp && (port & 0x00E0 == 0);
+    let ms = mouse && (port & 0x0021 == 0x0001);
+    kani::assume(!ula && !ay && !kj && !ms);
+    kani::assume(port & 0xC000 != 0x4000); // high byte not in contended RAM
+    let r = c.read_io(port);
+    kani::assert(c.frame_clocks == first_pixel - 1 + attr_phase as usize + 4, "C04/C07: uncontended port read takes 4 T");
+    kani::assert(r == if attr_phase { b2 } else { b1 },
+        "C07: unclaimed port returns the display/attribute byte the ULA is fetching");
+    kani::cover!(r != 0xFF);
+}
